@@ -133,6 +133,7 @@ func runG8(r *Repo, rep *Report) {
 	g8Prefix(r, rep, mainFn)
 	g8Sort(r, rep)
 	g8Dispatch(r, rep)
+	g8CallsReachAdd(r, rep)
 }
 
 // g8Prefix: SetPrefix is called only from main.main, before NewPlugins; the rewritten prefix is derived from GetPrefix by
@@ -680,5 +681,74 @@ func g8Dispatch(r *Repo, rep *Report) {
 	}
 	if n < 2 {
 		rep.fail(Finding{Rule: "G8", Key: "G8|dispatch|vacuity", Kind: "undecided", Msg: fmt.Sprintf("only %d prefix-dispatch loops found (2 confirmed by hand: (*pkg).Add, newPackage)", n)})
+	}
+}
+
+// g8CallsReachAdd: in newPackage every discovered call is either handed to (*pkg).Add or examined by HasUndefined (and then
+// deferred): no path round the call loop skips both — a pre-filter on the call's name would make prefix customisation drop calls.
+func g8CallsReachAdd(r *Repo, rep *Report) {
+	fi := r.lookup("derive.newPackage")
+	add := r.lookup("derive.(*pkg).Add")
+	hasU := r.lookup("derive.(*call).HasUndefined")
+	if fi == nil || add == nil || hasU == nil {
+		rep.fail(Finding{Rule: "G8", Key: "G8|calls-reach-add|missing", Kind: "undecided", Msg: "newPackage / (*pkg).Add / (*call).HasUndefined not found"})
+		return
+	}
+	info := fi.Pkg.TypesInfo
+	g := newGraph(fi.Decl.Body, mayReturnFn(info))
+	// the loop whose body calls pkg.Add
+	var loop *ast.RangeStmt
+	ast.Inspect(fi.Decl.Body, func(n ast.Node) bool {
+		rs, ok := n.(*ast.RangeStmt)
+		if !ok {
+			return true
+		}
+		direct := false
+		inspectOwn(rs.Body, func(m ast.Node) bool {
+			if c, ok := m.(*ast.CallExpr); ok && callee(info, c) == add.Fn {
+				direct = true
+			}
+			return true
+		})
+		if direct {
+			loop = rs // innermost wins (visited last)
+		}
+		return true
+	})
+	if loop == nil {
+		rep.fail(Finding{Rule: "G8", Key: "G8|calls-reach-add|no-loop", Kind: "undecided", Where: []string{r.pos(fi.Decl.Pos())}, Msg: "newPackage: the loop that adds calls was not found"})
+		return
+	}
+	var head, body *cfg.Block
+	for _, b := range g.Blocks {
+		if b.Stmt == ast.Stmt(loop) {
+			switch b.Kind {
+			case cfg.KindRangeLoop:
+				head = b
+			case cfg.KindRangeBody:
+				body = b
+			}
+		}
+	}
+	if head == nil || body == nil {
+		rep.fail(Finding{Rule: "G8", Key: "G8|calls-reach-add|cfg", Kind: "undecided", Msg: "newPackage: call loop not found in the CFG"})
+		return
+	}
+	examines := func(b *cfg.Block) bool {
+		return blockHas(b, func(n ast.Node) bool {
+			c, ok := n.(*ast.CallExpr)
+			return ok && (callee(info, c) == add.Fn || callee(info, c) == hasU.Fn)
+		})
+	}
+	reach := g.reachable([]*cfg.Block{body}, examines)
+	if examines(body) {
+		rep.pass("G8")
+		return
+	}
+	if reach[head] {
+		rep.fail(Finding{Rule: "G8", Key: "G8|calls-reach-add|skipped", Where: []string{r.pos(loop.Pos())},
+			Msg: "newPackage can skip a discovered call without handing it to (*pkg).Add or examining it with HasUndefined: calls written with a customised prefix can be dropped silently (goderive exits 0 and the function is never generated)"})
+	} else {
+		rep.pass("G8")
 	}
 }
